@@ -290,6 +290,11 @@ func NewMeteredAddress(memoryGauge common.MemoryGauge, b [AddressLength]byte) Ad
 
 func BytesToAddress(b []byte) Address {
 	var a Address
+	// If there are too many bytes, use the last ones,
+	// like common.Address.SetBytes
+	if len(b) > AddressLength {
+		b = b[len(b)-AddressLength:]
+	}
 	copy(a[AddressLength-len(b):AddressLength], b)
 	return a
 }
